@@ -33,7 +33,7 @@ MANIFEST = {
     "technique": "Coq proof (case split over the C11 specifications of py2v-generated code) + pairwise differential testing across file-thing kinds with a minimal-interface object",
 }
 ALLOWED_ATTRS = {"name", "close", "fileno", "mode", "closed", "filename"}
-WAYS = ["bytesio", "str", "bytes", "path", "file", "file_bytesname", "min_clamp", "min_raise", "kw_filename", "kw_fileobj"]
+WAYS = ["bytesio", "str", "bytes", "path", "file", "file_bytesname", "min_clamp", "min_raise", "kw_filename", "kw_filename_path", "kw_filename_bytes", "kw_fileobj"]
 
 
 def history(kind, way, data, tmpdir, base, asked):
@@ -49,6 +49,8 @@ def history(kind, way, data, tmpdir, base, asked):
         if way == "bytes": return os.fsencode(fn), None
         if way == "path": return pathlib.Path(fn), None
         if way == "kw_filename": return None, {"filename": fn}
+        if way == "kw_filename_path": return None, {"filename": pathlib.Path(fn)}
+        if way == "kw_filename_bytes": return None, {"filename": os.fsencode(fn)}
         return None, None
     fobj = None
     try:
@@ -264,11 +266,20 @@ def detect_ways(ctx, kind, sample, data, tmp):
             return "EXC:" + type(e).__name__
     for lab, path in variants:
         ref = outcome(path)
-        for way in ("bytes", "path", "file", "file_bytesname"):
+        for way in ("bytes", "path", "kw_filename", "kw_filename_path", "kw_filename_bytes", "file", "file_bytesname"):
             if way == "bytes":
                 r = outcome(os.fsencode(path))
             elif way == "path":
                 r = outcome(pathlib.Path(path))
+            elif way.startswith("kw_filename"):
+                arg = {"kw_filename": path, "kw_filename_path": pathlib.Path(path), "kw_filename_bytes": os.fsencode(path)}[way]
+                try:
+                    o = mutagen.File(filename=arg)
+                    r = type(o).__name__
+                except mutagen.MutagenError:
+                    r = "MutagenError"
+                except Exception as e:
+                    r = "EXC:" + type(e).__name__
             else:
                 with open(os.fsencode(path) if way == "file_bytesname" else path, "rb") as h:
                     r = outcome(h)
